@@ -404,6 +404,8 @@ func checkC09(c *Ctx) {
 	checkC09Round2(c)
 	checkC09Round4(c)
 	checkStaleTriple(c, "C09.stale-cursor")
+	checkIsearchLiteralFallback(c, "C09.invalid-regex-searched")
+	checkEndOfHistory(c, "C09.end-of-history-past-newest")
 }
 
 func isLenCall(v ssa.Value) bool {
